@@ -39,12 +39,10 @@ Fixpoint rbuild (q : rterm) : request :=
 (* observation of a backward request: is it a set of constraints, and which values it restores *)
 Record bobs := { b_flat : bool; b_look : list (list ckey * option Z) }.
 Definition bobs_ok (r : request) (o : bobs) : bool :=
-  match r with
-  | RJunk => true
-  | _ => match req_flat r with
-         | Some c => b_flat o && forallb (fun pw => optZ_eqb (look c (fst pw)) (snd pw)) (b_look o)
-         | None => negb (b_flat o)
-         end
+  if has_junk r then true else
+  match req_flat r with
+  | Some c => b_flat o && forallb (fun pw => optZ_eqb (look c (fst pw)) (snd pw)) (b_look o)
+  | None => negb (b_flat o)
   end.
 
 (* an edit that succeeded in the model: what is needed to apply its backward request *)
@@ -119,11 +117,9 @@ Definition run_step (g : gf) (sx : st) (s : step) : bool * st :=
   | StBwd ei seed w =>
       match nth_error edits ei with
       | Some (Some e) =>
-          match e_bwd e with
-          | RJunk => (true, sx)
-          | b => (res_ok (req_edit g (key_of_seed seed) (e_trace e) b (e_oldargs e) (e_tags e)) w
-                         (fun x o => tobs_ok (fst (fst x)) (fst o) && Z.eqb (snd (fst x)) (snd o)), sx)
-          end
+          if has_junk (e_bwd e) then (true, sx)
+          else (res_ok (req_edit g (key_of_seed seed) (e_trace e) (e_bwd e) (e_oldargs e) (e_tags e)) w
+                       (fun x o => tobs_ok (fst (fst x)) (fst o) && Z.eqb (snd (fst x)) (snd o)), sx)
       | _ => (false, sx)
       end
   end.
